@@ -249,7 +249,7 @@ def gen_chain(rng, depth, allow_fifo=False, force=None, kinds=None, ebsafe=False
                 r = rng.choice(divs[1:] if len(divs) > 1 and rng.random() < 0.85 else divs)
                 digits //= r; toks.append(f"re{r}")
             elif k == "px":
-                r = rng.choice([1, 2, 2, 3, 4]) if not ebsafe else rng.choice([2, 2, 3, 4])
+                r = rng.choice([1, 2, 2, 3, 4]) if not ebsafe else rng.choice([2, 2, 3, 4, 6, 8])
                 if be:
                     if digits != 1:
                         ok = False; break
@@ -380,17 +380,17 @@ PAUSE_MODES = ["before_last", "before_last", "before_single", "random", "every",
 
 
 def gen_pkt_case(rng, cid, n, eb, force=None, depth=None, pause=None, rkind=None, allow_fifo=False, expose=None,
-                 be=False, kinds=None, digits0=None, extra="", tokens=None):
+                 be=False, kinds=None, digits0=None, extra="", tokens=None, em=False):
     """Packet family: the producer sends whole packets (prod=seq) with idle slots placed at packet-beat boundaries,
     in particular directly in front of the LAST beat of a packet / in front of a one-beat packet, while the consumer is
     (mostly) ready -- the schedules on which Packet.h widthReduce's beat bookkeeping (sentBits / bytesLeft / bitsLeft,
     advancing on transfer(out)) matters."""
     depth = depth or rng.choice([1, 1, 2, 3, 3, 4])
     kinds = kinds or (PKT_KINDS if eb else STAGE_KINDS)
-    w = (rng.choice([3, 4]) if not be else 8) if not expose else expose[2]; mw = 3
+    w = (rng.choice([3, 4]) if not (be or em) else 8) if not expose else expose[2]; mw = 3
     bestyle = rng.choice(["rand", "rand", "rand", "sparse", "ones"])
     fixed0 = digits0
-    toks, digits0, nst = gen_chain(rng, depth, allow_fifo, force, kinds=kinds, ebsafe=bool(eb) and not expose, w=w, digits0=digits0, be=be)
+    toks, digits0, nst = gen_chain(rng, depth, allow_fifo, force, kinds=kinds, ebsafe=bool(eb) and not expose, w=(1 if em else w), digits0=digits0, be=be)
     if tokens:
         toks, digits0, nst = list(tokens), fixed0, sum(1 for t in tokens if t.startswith("st"))
     if expose:
@@ -436,7 +436,7 @@ def gen_pkt_case(rng, cid, n, eb, force=None, depth=None, pause=None, rkind=None
             items += [junk() for _ in range(npause)]
             ebv = 0
             if eb and last:
-                ebv = w * rng.randrange(digits0)             # 0 .. digits0-1 empty digits, at least one valid digit
+                ebv = (1 if em else w) * rng.randrange(digits0)   # 0 .. digits0-1 empty digits, at least one valid digit
             items.append((1, [rng.randrange(1 << w) for _ in range(digits0)], 1 if last else 0, txid, ebv))
     lines = []
     for i in range(n):
@@ -447,13 +447,25 @@ def gen_pkt_case(rng, cid, n, eb, force=None, depth=None, pause=None, rkind=None
                      + (be_fields(rng, digits0, bestyle) if be else ""))
     pp = 1 if rng.random() < 0.8 else 0
     header = (f"C {cid} w={w} mw={mw} min={digits0} chain={','.join(toks) or '-'} hold=1 polite=1 pp={pp} eopg=0 eb={int(eb)} prod=seq "
-              f"n={n} vk=pkt_{pause} rk={rkind}" + (" expose=1" if expose else "") + (f" be=1 bestyle={bestyle}" if be else "") + extra)
+              f"n={n} vk=pkt_{pause} rk={rkind}" + (" expose=1" if expose else "") + (f" be=1 bestyle={bestyle}" if be else "") + (" em=1" if em else "") + extra)
     return dict(header=header, plan=lines)
 
 
-def gen_pkt_cases(seed, tiername, tag, count, n, eb):
+def gen_pkt_cases(seed, tiername, tag, count, n, eb, em=False):
     rng = random.Random(f"C16/{seed}/{tiername}/{tag}")
     cases = []; i = 0
+    if em:
+        # scl::Empty (bytes): every converter shape alone from reset -- the FIRST packet after reset is drawn from the full length
+        # distribution (1 beat .. several wide beats), with and without back pressure on the first beat
+        for toks, d0 in ((["px2"], 1), (["px3"], 1), (["px4"], 1), (["px6"], 1), (["px8"], 1), (["px2"], 2), (["px4"], 2), (["px3"], 4), (["px2"], 4),
+                         (["pr2"], 2), (["pr4"], 4), (["pr3"], 6), (["pr8"], 8), (["pm4"], 1), (["pm1"], 4), (["px4", "pr2"], 1), (["rd", "px4", "rr"], 1),
+                         (["px2", "rd", "px2"], 1)):
+            for rk in ("always", "rand", "alt"):
+                for pm in ("none", "before_single"):
+                    cases.append(gen_pkt_case(rng, f"{tag}{i}", n, True, tokens=toks, digits0=d0, pause=pm, rkind=rk, em=True)); i += 1
+        while len(cases) < count:
+            cases.append(gen_pkt_case(rng, f"{tag}{i}", n, True, em=True, allow_fifo=rng.random() < 0.15)); i += 1
+        return cases
     regs = ["rd", "rr", "rb", "dc", "dl", "st"]
     # the converters alone and wrapped in registers, under every pause placement, consumer always / mostly ready
     for f in (["pr"], ["px"], ["pm"], ["rd", "pr"], ["pr", "rr"], ["rd", "pr", "rr"], ["rr", "pr", "rd"], ["px", "pr"], ["pr", "px"],
@@ -742,8 +754,12 @@ def oracle_case(params, evlines):
     offered_last = None
     hold_break = None
     last_e = None
+    em = params.get("em") == "1"                   # scl::Empty: the extra column counts empty BYTES (w = 8): convert to bits
     for idx, line in enumerate(evlines):
         e = parse_ev(line)
+        if em:
+            e["eb"] = e["eb"] * 8 if e.get("eb") is not None else None
+            e["ebo"] = str(int(e["ebo"]) * 8) if (e.get("ebo") or "").isdigit() else e.get("ebo")
         if e["rin"] not in "01" or e["vo"] not in "01":
             return dict(event=idx, what="undefined handshake signal (ready_in / valid_out)", line=line), st, obs
         vo = e["vo"] == "1"; rin = e["rin"] == "1"
@@ -1132,9 +1148,9 @@ def main():
 
     # ---------------- generated cases (tie + oracle)
     if tiername == "quick":
-        ntie, nfifo, npkt, npkteb, nbe, nsig, nfl, ncyc = 1500, 150, 500, 400, 500, 400, 400, 200
+        ntie, nfifo, npkt, npkteb, nbe, nsig, nfl, npktem, ncyc = 1500, 150, 500, 400, 500, 400, 400, 400, 200
     else:
-        ntie, nfifo, npkt, npkteb, nbe, nsig, nfl, ncyc = 15000, 1500, 5000, 4000, 5000, 4000, 4000, 360
+        ntie, nfifo, npkt, npkteb, nbe, nsig, nfl, npktem, ncyc = 15000, 1500, 5000, 4000, 5000, 4000, 4000, 4000, 360
     run_batch(gen_cases(seed, tiername, "tie", ntie, ncyc), "tie")
     # chains containing strm::fifo: no Coq machine -> independent oracle only
     run_batch(gen_cases(seed, tiername, "fifo", nfifo, ncyc, allow_fifo=True), "fifo")
@@ -1144,6 +1160,8 @@ def main():
     run_batch(gen_pkt_cases(seed, tiername, "pkt", npkt, ncyc, False), "pkt")
     # the same on streams that carry EmptyBits (partial last beats): no Coq machine -> packet oracle only
     run_batch(gen_pkt_cases(seed, tiername, "pkteb", npkteb, ncyc, True), "pkteb")
+    # ... and on streams that carry scl::Empty (empty BYTES)
+    run_batch(gen_pkt_cases(seed, tiername, "pktem", npktem, ncyc, True, em=True), "pktem")
     # single widthReduce stages on the shapes on which its Empty/EmptyBits output used to be wrong (fixed: 32e913f)
     run_batch(gen_expose_cases(seed, tiername, ncyc), "pkteb_expose")
     # the other stream signatures: Ready+Sop+Eop without Valid (derived valid()), Valid-only, Sop/Eop-only
